@@ -115,6 +115,13 @@ func buildQuery(hyps []*Term, goal *Term) (q *Query, err error) {
 			}
 			return
 		}
+		// A => (B and C)  ~>  (A => B), (A => C)   (only worth it when a quantifier is inside)
+		if t.Op == "=>" && t.Args[1].Op == "and" && hasForall(t.Args[1]) {
+			for _, a := range t.Args[1].Args {
+				flatten(mkImp(t.Args[0], a))
+			}
+			return
+		}
 		flat = append(flat, t)
 	}
 	for _, h := range hyps {
@@ -127,6 +134,12 @@ func buildQuery(hyps []*Term, goal *Term) (q *Query, err error) {
 			q.Hyps = append(q.Hyps, b)
 		} else {
 			q.Schemas = append(q.Schemas, schema{univ, b})
+			// one instance at fresh constants keeps the quantifier-free content of the formula
+			m := map[string]*Term{}
+			for _, v := range univ {
+				m[v] = mkConst("?d"+v[1:], SInt)
+			}
+			q.Hyps = append(q.Hyps, subst(b, m))
 		}
 	}
 	return q, nil
